@@ -570,6 +570,11 @@ func runFaultCase(reg uint16, fc faultCase, pr *profile) {
 			case "link", "monitor":
 				limit = time.Duration(gen.DefaultRequestTimeout+1) * time.Second
 			}
+			if firedBefore && limit > 0 {
+				// the request started after the fault: it may first have tried to re-establish the connection
+				// (dial timeout 3 s, handshake deadlines 1 s per message) before its own timeout began to run
+				limit += 6 * time.Second
+			}
 			if limit > 0 && r.Dur > limit {
 				if late := time.Duration(ctlLate.Load()); late > 300*time.Millisecond {
 					v.notes = append(v.notes, fmt.Sprintf("%s failed after %v (> %v), but the harness' own %v timer fired %v late: process starved, not judged", op.Name, r.Dur, limit, nominal, late))
